@@ -20,6 +20,10 @@ type Clause struct {
 	Expr  *Node
 	Src   string
 	Where string
+	// CallSite: a history clause. It describes ghost bookkeeping done by the *caller* around a call
+	// (appending the call's results to a ghost log); it is assumed at call sites and is not an
+	// obligation of the implementation, which cannot execute ghost code.
+	CallSite bool
 }
 
 type LoopSpec struct {
@@ -352,11 +356,12 @@ func (sp *Specs) parseText(file string, lines []string, nums []int) error {
 			return &Clause{Expr: n, Src: src, Where: where}, nil
 		}
 		switch word {
-		case "requires", "ensures", "derive":
+		case "requires", "ensures", "derive", "history":
 			c, err := mk(rest)
 			if err != nil {
 				return fail(err)
 			}
+			c.CallSite = word == "history"
 			switch word {
 			case "requires":
 				cur.Requires = append(cur.Requires, c)
@@ -478,6 +483,15 @@ func (sp *Specs) parseText(file string, lines []string, nums []int) error {
 
 // resolveImplements copies the clauses of the interface contract into each implementing contract.
 func (sp *Specs) resolveImplements() error {
+	// sort aliases may be declared in a file loaded after the ghost declaration that uses them
+	for i := range sp.Ghosts {
+		sp.Ghosts[i].Sort = sp.resolveSort(sp.Ghosts[i].Sort)
+	}
+	for _, r := range sp.Records {
+		for i := range r.Fields {
+			r.Fields[i].Sort = sp.resolveSort(r.Fields[i].Sort)
+		}
+	}
 	for _, c := range sp.Contracts {
 		if c.Implements == "" {
 			continue
